@@ -1,35 +1,9 @@
 import JadeModel.Proofs.SystemLive3
+import JadeModel.Proofs.SystemLiveStep5
 
 set_option linter.unusedSimpArgs false
 
-/-!
-Fault-free executions, part 5: a remaining blocker is never DONE (completed jobs are removed from the
+/-! Fault-free executions, part 5: a remaining blocker is never DONE (completed jobs are removed from the
 blocker lists in the pass that sees their rows), and a round that ends with an empty HPC queue leaves no
 unblocked NOT_SUBMITTED job.
--/
-
-namespace Jade.Sys
-
-structure Live5 (s : Sys) : Prop where
-  dBlk : ∀ j : JobId, s.disk.st j = .ns → ∀ b ∈ s.disk.blk j, s.disk.st b ≠ .done
-  hBlk : ∀ q a y, s.procs q = .sub a y → holds y.pc = true → ∀ j : JobId, y.loc.st j = .ns →
-    ∀ b ∈ y.loc.blk j, y.loc.st b ≠ .done ∨ b ∈ y.toCancel ∨ HasJob y.pass b
-  nsBlocked : ∀ q a y, s.procs q = .sub a y → y.pc = .persisted → 1 ≤ s.sc.maxNodes → y.out = [] →
-    ∀ j : JobId, j < s.sc.n → y.loc.st j = .ns → y.loc.blk j ≠ []
-
-theorem live5_init (sc : Scn) : Live5 (init sc) := by
-  refine ⟨?_, ?_, ?_⟩ <;> simp [init, HasJob]
-
-set_option maxHeartbeats 32000000 in
-theorem live5_step {s s' : Sys} {op : Op} (hr : RoleInv s) (ha : OutcomeA s) (h0 : Live0 s) (hi : Live5 s)
-    (h : stepP s op = some s') : Live5 s' := by
-  have hsc := sc_step (stepP_step h)
-  obtain ⟨r1, r2, r3, r4, r5⟩ := hr
-  obtain ⟨a1, a2, a3, a4, a5, a6⟩ := h0
-  have o9 := ha.newlyDisj
-  obtain ⟨e1, e2, e3⟩ := hi
-  plain_cases op h hs hg <;> (refine ⟨?_, ?_, ?_⟩ <;> frame_out)
-  all_goals first
-    | grind [SubP.load, persistStatus, afterCollect, afterPersist, RoundDone]
-
-end Jade.Sys
+ -/
